@@ -62,6 +62,7 @@ for _cname in CONTENTS:
                 schema = etree.XMLSchema(etree.parse(XSD))
                 doc = etree.parse(path)
                 ok = schema.validate(doc)
+                self._native_doc = doc
                 return ("native", ok, [str(e.message)[:160] for e in schema.error_log][:5])
             return ("tree", F.ctx.options["__fs__"][path][1], None)
 
@@ -168,3 +169,40 @@ for _g in [g for g in _ENUM_GROUPS if _expressible(g)]:
             init = st.InitialState(time_step=0, position=np.array([0.0, 0.0]), orientation=0.0, velocity=0.0, yaw_rate=0.0, slip_angle=0.0)
             pps = F.new(PlanningProblemSet, [F.new(PlanningProblem, 901, init, GoalRegion([st.CustomState(time_step=Interval(0, 10))]))])
             return {"sc": sc, "pps": pps, "args": []}
+
+
+@register
+class SchemaValid3D(SchemaValid):
+    case = "lanelet with 3-D boundaries, some vertices at height exactly 0"
+    describe = "every point of a 3-D polyline carries x, y and z (also where z is 0); the document follows the schema"
+
+    def build(self, F):
+        import numpy as np
+
+        import commonroad.scenario.state as st
+        from commonroad.common.common_lanelet import LaneletType
+        from commonroad.common.util import Interval
+        from commonroad.planning.goal import GoalRegion
+        from commonroad.planning.planning_problem import PlanningProblem
+        from commonroad.scenario.lanelet import Lanelet
+        from commonroad.scenario.scenario import Location, Scenario, ScenarioID, Tag
+
+        sc = F.new(Scenario, 0.1, F.new(ScenarioID), "author", {Tag.URBAN}, "affiliation", "source", F.new(Location, 2867714, 48.25, 11.5))
+        z = [0.0, 0.0, 1.25, 2.5]
+        mk = lambda y: np.array([[10.0 * i, y, z[i]] for i in range(4)])
+        F.method(sc, "add_objects", F.new(Lanelet, mk(1.0), mk(0.5), mk(0.0), 900, lanelet_type={LaneletType.URBAN}))
+        init = st.InitialState(time_step=0, position=np.array([0.0, 0.0]), orientation=0.0, velocity=0.0, yaw_rate=0.0, slip_angle=0.0)
+        pps = F.new(PlanningProblemSet, [F.new(PlanningProblem, 901, init, GoalRegion([st.CustomState(time_step=Interval(0, 10))]))])
+        return {"sc": sc, "pps": pps, "args": []}
+
+    def post(self, F, inp, out):
+        yield from SchemaValid.post(self, F, inp, out)
+        if out.exc is None:
+            if out.value[0] == "tree":
+                doc = out.value[1]
+                pts = [p for la in doc.children if la.tag == "lanelet" for b in la.children if b.tag in ("leftBound", "rightBound") for p in b.children if p.tag == "point"]
+                tags = [[c.tag for c in p.children] for p in pts]
+            else:
+                root = self._native_doc.getroot()
+                tags = [[c.tag for c in p] for la in root.findall("lanelet") for b in la if b.tag in ("leftBound", "rightBound") for p in b.findall("point")]
+            yield ("every boundary point of the 3-D lanelet has a z coordinate (8 points)", len(tags) == 8 and all(t == ["x", "y", "z"] for t in tags))
